@@ -454,6 +454,18 @@ def r10_loader_complete(ctx, rule):
             in_handler = any(isinstance(a, ast.ExceptHandler) for a in enclosing_stmt_chain(mod, st))
             conds = [(U(t), p_) for t, p_ in path_conditions(mod, st, stop=lp)]
             ok_skip = in_handler or conds == [('error_flag', True)]
+            if not ok_skip and isinstance(st, ast.Continue):
+                # not a skip at all if the value of this line was stored earlier in the same block
+                par = mod.parents.get(id(st))
+                for field in ('body', 'orelse'):
+                    blk = getattr(par, field, None)
+                    if isinstance(blk, list) and any(x is st for x in blk):
+                        k = [j for j, x in enumerate(blk) if x is st][0]
+                        sec = params(fn)[0]
+                        if any(isinstance(x, ast.Expr) and isinstance(x.value, ast.Call) and isinstance(x.value.func, ast.Attribute)
+                               and x.value.func.attr == 'append' and U(x.value.func.value).startswith(sec) for x in blk[:k]):
+                            ok_skip = True
+                            n -= 1
             if not ok_skip or isinstance(st, (ast.Break, ast.Return)):
                 bad = True
                 ctx.bad(rule, q, 'loader skips lines under %s' % (conds or U(st)),
